@@ -127,6 +127,8 @@ pub struct Esp {
     pub snap: Arc<Contents>,
     pub order: u64,
     pub valid: bool,
+    /// data root pinned by this savepoint (recorded when World::track_pins is on)
+    pub root: redb::verif::Root,
 }
 
 #[derive(Clone)]
@@ -139,6 +141,7 @@ pub struct Reader {
     pub txn: ReadTransaction,
     pub snap: Arc<Contents>,
     pub seq: u64,
+    pub root: redb::verif::Root,
 }
 
 pub struct World {
@@ -163,6 +166,8 @@ pub struct World {
     /// judge C13's "never makes the file larger" clause (only the C13 check does; elsewhere a
     /// growth is counted, not judged, so that it is attributed to the right property)
     pub judge_compact_size: bool,
+    /// record the data root every reader / ephemeral savepoint pins (for the ownership accountant)
+    pub track_pins: bool,
 }
 
 pub fn key_u64(i: u64) -> Vec<u8> {
@@ -383,6 +388,7 @@ impl World {
             sync_errors: vec![],
             be_violations: vec![],
             judge_compact_size: false,
+            track_pins: false,
         };
         w.push_commit(true, 0, 0, "create");
         Ok(w)
@@ -802,6 +808,11 @@ impl World {
     /// Run one write transaction according to `plan`. Returns Ok(true) if it committed.
     pub fn run_txn(&mut self, plan: &TxnPlan) -> R<bool> {
         tr!(self, "begin_write {plan:?}");
+        let root_at_begin: redb::verif::Root = if self.track_pins && plan.esp_create {
+            self.db().verif_snapshot().mem.current_data_root
+        } else {
+            None
+        };
         let mut txn = self.db().begin_write().map_err(se("begin_write"))?;
         self.bump("txn.begin");
         let mut durable = plan.durable;
@@ -832,6 +843,7 @@ impl World {
                         snap: self.visible.clone(),
                         order: self.order,
                         valid: true,
+                        root: root_at_begin,
                     });
                     self.bump("sp.ephemeral_created");
                 }
@@ -1127,10 +1139,16 @@ impl World {
 
     pub fn open_reader(&mut self) -> R<()> {
         let txn = self.db().begin_read().map_err(se("begin_read"))?;
+        let root = if self.track_pins {
+            self.db().verif_snapshot().mem.current_data_root
+        } else {
+            None
+        };
         self.readers.push(Reader {
             txn,
             snap: self.visible.clone(),
             seq: self.last_seq(),
+            root,
         });
         self.bump("reader.open");
         Ok(())
@@ -1165,6 +1183,18 @@ impl World {
             self.esp.swap_remove(i);
             self.bump("sp.ephemeral_dropped");
         }
+    }
+
+    /// Roots pinned by live readers and ephemeral savepoints (needs track_pins)
+    pub fn pins(&self) -> Vec<(String, redb::verif::Root)> {
+        let mut v = vec![];
+        for r in &self.readers {
+            v.push((format!("the read transaction begun at commit seq {}", r.seq), r.root));
+        }
+        for e in &self.esp {
+            v.push((format!("the ephemeral savepoint of order {}", e.order), e.root));
+        }
+        v
     }
 
     /// Compare what a fresh reader sees with the model.
